@@ -50,6 +50,27 @@ def gen_cases(ctx):
             p = {100: rng.choice([16, 17, 18, 19])}; mode = "c2"
             if sel == 3: p[130] = rng.choice([400, 1340, 2000])
             elif sel == 0 and rng.random() < 0.4: p[130] = 1340
+        elif k == 3 and i % 10 == 8:
+            # sub-block path with very regular sequences: records of N random bytes (all literal lengths share one code) followed by a short copy at
+            # one fixed distance: every table degenerates to RLE / repeat mode and late sub-blocks carry one or two sequences in 1-3 bytes
+            nrec = rng.choice([3, 3, 4, 6, 12])
+            ml, off = rng.choice([(32, 12), (32, 12), (16, 8), (40, 24), (35, 5)])
+            x = bytearray()
+            for _ in range(nrec):
+                x += datagen.randbytes(rng, rng.choice([1024, 1024, 1100, 1300, 2047, rng.randint(1024, 2047)]))
+                for _ in range(ml):
+                    x.append(x[-off])
+            x = bytes(x)
+            p = {100: rng.choice([5, 6, 7, 9, 12, 3, 16]), 130: rng.choice([1340, 1340, 1340, 2000])}; mode = rng.choice(["c2", "c2", "stream"])
+        elif k == 4 and i % 10 == 9:
+            # input lengths at the thresholds of the content-size field widths (256, 65792) and of the single-segment rule
+            n_ = rng.choice([255, 256, 257, 65535, 65536, 65791, 65792, 65792, 65793, 65536 + 256 + 255, 131071, 131072])
+            x = datagen.gen(rng, n_ + 10)[1]
+            x = (x * (n_ // max(1, len(x)) + 1))[:n_] if x else bytes(n_)
+            p = {100: rng.choice([1, 3, 5])}
+            if rng.random() < 0.3: p[201] = 1
+            if rng.random() < 0.3: p[101] = rng.choice([10, 16, 17, 18])
+            mode = rng.choice(["c2", "stream", "c2"])
         elif k == 4 and i % 10 == 4:
             # formatted dictionary whose offset-code table covers exactly the codes the first block can need; the frame starts with
             # incompressible or constant blocks and later reaches back to the start of the dictionary (offset codes beyond the table)
@@ -136,7 +157,7 @@ def correspondence(ctx):
         c["line"] = ln
         c["frame"] = f.split()[0] if f else "err missing"
         c["raw"] = f
-        cl.append("conform %s %s %s %d %d" % (c["frame"], frames.hx(c["x"]), frames.hx(c["d"]), c["p"].get(1015, 0), 0) if not f.startswith("err") else "bad")
+        cl.append("conform %s %s %s %d %d %d" % (c["frame"], frames.hx(c["x"]), frames.hx(c["d"]), c["p"].get(1015, 0), 0, 1 if c["p"].get(130) else 0) if not f.startswith("err") else "bad")
     conf = frames.parallel(lambda ch: frames.model_lines(ch), frames.split_chunks(cl, 16))
     modes, distinct, cov, rejected = {}, set(), 0, 0
     for c, r in zip(cases, conf):
